@@ -72,6 +72,7 @@ func child(deadline time.Time) *sched.RaceSummary {
 }
 
 func TestCheck(t *testing.T) {
+	vk.UseT(t)
 	sched.RaceChild(child)
 	r := vk.Start("C20", "model_checking", 100*time.Second, 5*time.Minute)
 	sched.RunRaceParent(r, vk.Pick(r, 25, 150),
